@@ -159,8 +159,17 @@ func render(pkgClause string, imports []string, decls []decl, l Layout) map[stri
 		body := strings.Join(bodies[i], "\n\n")
 		var sb strings.Builder
 		sb.WriteString(pkgClause + "\n\n")
-		for _, im := range usedImports(body, imports) {
-			sb.WriteString("import " + im + "\n")
+		if used := usedImports(body, imports); len(used) >= 2 && (i+len(body))%2 == 0 {
+			// one parenthesised import declaration for all packages of the file
+			sb.WriteString("import (\n")
+			for _, im := range used {
+				sb.WriteString("\t" + im + "\n")
+			}
+			sb.WriteString(")\n")
+		} else {
+			for _, im := range used {
+				sb.WriteString("import " + im + "\n")
+			}
 		}
 		sb.WriteString("\n" + body + "\n")
 		out[name] = sb.String()
